@@ -129,9 +129,20 @@ def run_brackets(call):
                 s.add_bracket(a, b)
             vec = numpy.array(bases)
             s.calc(vec)
+            if kind == "marginal_rate":
+                s.marginal_rates(vec), s.rate_from_tax_base(vec), s.threshold_from_tax_base(vec), s.bracket_indices(vec)
             s.multiply_rates(2.0, inplace=True)
             v2 = [2.0 * x for x in v]
             got = s.calc(vec)
+            if kind == "marginal_rate":
+                for nm, want in (("marginal_rates", v2), ("rate_from_tax_base", v2), ("threshold_from_tax_base", t)):
+                    res = getattr(s, nm)(vec)
+                    for j, b in enumerate(bases):
+                        if b >= t[0]:
+                            k = max(q for q in range(len(t)) if t[q] <= b)
+                            if abs(float(res[j]) - want[k]) > 1e-9:
+                                bad.append(f"{nm} after an earlier look-up and an in-place multiply_rates(2): base {b} gives {float(res[j])}, bracket {k} of the scale as it is now has {want[k]}")
+                                break
             for b, g in zip(bases, got):
                 exp = oracle(kind, [Fr(x).limit_denominator(1000) for x in t], [Fr(x).limit_denominator(1000) for x in v2], Fr(b).limit_denominator(1000))
                 if exp is not None and abs(float(g) - float(exp)) > 1e-6 * max(1.0, abs(float(exp))):
